@@ -1,0 +1,17 @@
+//! Verification hooks (`--features verif-hooks`). Additive only: nothing here is compiled
+//! or reachable with the feature off.
+#![allow(missing_docs, clippy::all, dead_code, unused_imports)]
+
+pub mod c09;
+pub mod c20;
+pub mod c21;
+pub mod c22;
+pub mod c23;
+pub mod c24;
+pub mod c25;
+pub mod c29;
+pub mod c30;
+pub mod c32;
+pub mod c33;
+pub mod c44;
+pub mod c45;
